@@ -109,6 +109,10 @@ func goMapDefineOwnProperty(obj *object, name string, descriptor property, throw
 	if !descriptor.isDataDescriptor() {
 		return obj.runtime.typeErrorResult(throw)
 	}
+	if goObj.value.IsNil() {
+		// A nil Go map cannot take entries (SetMapIndex panics).
+		panic(obj.runtime.panicTypeError("assignment to entry in nil map"))
+	}
 	goObj.value.SetMapIndex(goObj.toKey(obj.runtime, name), goObj.toValue(obj.runtime, descriptor.value.(Value)))
 	return true
 }
